@@ -83,6 +83,8 @@ def check(sid, props):
             print(sid, p, 'exit', rc, [l[:160] for l in lines if not l.startswith('KNOWN')])
     finally:
         sh('git -C /repo checkout -- .')
+    if os.environ.get('MUT_NOREC'):
+        return
     meta.setdefault('checks_run', {}).update(results)
     meta['caught_by'] = sorted(p for p, r in meta['checks_run'].items() if r['exit'] == 1)
     json.dump(meta, open(os.path.join(dst, 'meta.json'), 'w'), indent=1)
